@@ -17,7 +17,7 @@ if "--tier" in sys.argv:
     tier = sys.argv[sys.argv.index("--tier") + 1]
     ids = [i for i in ids if i != tier]
 pid = ids[0]
-dst = os.path.join(verif, "seeded", "%s-%s" % (pid, X))
+dst = os.path.join(verif, "seeded", "%s-%s%s" % (pid, X, os.environ.get("SEED_SUFFIX", "")))
 os.makedirs(dst, exist_ok=True)
 shutil.copy(os.path.join(seeddir, X + ".patch.diff"), os.path.join(dst, "patch.diff"))
 demo_src = os.path.join(seeddir, X + "_demo_test.go.txt")
@@ -101,5 +101,5 @@ if old.get("checks") and out.get("checks"):
     out["checks"] = merged
     out["detected"] = any(c["exit"] == 1 for c in merged.values())
 json.dump(out, open(mp, "w"), indent=1)
-print("%s-%s: demo ok/fail = %s/%s, suite passes = %s, detected = %s  %s" % (pid, X, res.get("demo_passes_without_change"), res.get("demo_fails_with_change"), res.get("suite_passes_with_change"),
+print("%s-%s%s: demo ok/fail = %s/%s, suite passes = %s, detected = %s  %s" % (pid, X, os.environ.get("SEED_SUFFIX", ""), res.get("demo_passes_without_change"), res.get("demo_fails_with_change"), res.get("suite_passes_with_change"),
       res.get("detected"), {k: v["exit"] for k, v in (res.get("checks") or {}).items()}))
